@@ -95,6 +95,21 @@ pub struct Prediction {
     pub abrupt_exit_through_finally: bool,
     /// signature material: (fault kind or throw, conduit stack at the failure, handled how)
     pub sig: Vec<String>,
+    /// contents of the global list after the execution
+    pub gl: Vec<i64>,
+    /// what was live when an uncaught error was raised (sequence / string builder)
+    pub live_at_failure: Vec<String>,
+}
+
+/// Where an execution enters the program
+#[derive(Clone, Copy, Debug, PartialEq)]
+pub enum Entry {
+    /// run the whole script
+    Main,
+    /// the host calls exported function f<k> with one int argument
+    Func(usize, i64),
+    /// the host renders exported object OPD<k> (its @display calls f<k>(0))
+    Display(usize),
 }
 
 impl Default for Prediction {
@@ -114,6 +129,8 @@ impl Default for Prediction {
             model_gap: None,
             abrupt_exit_through_finally: false,
             sig: vec![],
+            gl: vec![],
+            live_at_failure: vec![],
         }
     }
 }
@@ -158,6 +175,17 @@ pub const ERR_ARGC: &str = "insufficient arguments (0, expected 1)";
 
 impl<'a> Model<'a> {
     pub fn run(p: &'a Program, printed: &'a Printed, plan: &'a FaultPlan, opts: ModelOpts) -> Prediction {
+        Self::run_entry(p, printed, plan, opts, Entry::Main, vec![])
+    }
+
+    pub fn run_entry(
+        p: &'a Program,
+        printed: &'a Printed,
+        plan: &'a FaultPlan,
+        opts: ModelOpts,
+        entry: Entry,
+        gl: Vec<i64>,
+    ) -> Prediction {
         let mut m = Model {
             p,
             printed,
@@ -167,18 +195,29 @@ impl<'a> Model<'a> {
                 result: Ok(String::new()),
                 ..Default::default()
             },
-            gl: vec![],
+            gl,
             conduit_stack: vec![],
             steps: 0,
         };
-        let mut frame = Frame::default();
-        let r = m.exec_func_body(&p.main, &mut frame, 3000);
+        let r = match entry {
+            Entry::Main => {
+                let mut frame = Frame::default();
+                m.exec_func_body(&p.main, &mut frame, 3000)
+            }
+            Entry::Func(k, a) => m.invoke(k, a, 0, Conduit::Plain),
+            Entry::Display(k) => m.invoke(k, 0, 0, Conduit::Display),
+        };
         match r {
-            Ok(v) => m.out.result = Ok(v.to_string()),
+            Ok(v) => {
+                m.out.result = Ok(match entry {
+                    Entry::Display(_) => format!("D{v}"),
+                    _ => v.to_string(),
+                })
+            }
             Err(Abrupt::Throw(t)) => {
                 m.out.result = Err(t.thrown.class());
                 m.out.origin_line = Some(t.origin_line);
-                if !t.crossed_opaque {
+                if !t.crossed_opaque && entry == Entry::Main {
                     let mut lines = vec![t.origin_line];
                     lines.extend(t.call_lines.iter().copied());
                     m.out.trace_lines = Some(lines);
@@ -188,6 +227,7 @@ impl<'a> Model<'a> {
             Err(Abrupt::Return(v)) => m.out.result = Ok(v.to_string()),
             Err(_) => m.out.model_gap = Some("break/continue escaped to top level".into()),
         }
+        m.out.gl = std::mem::take(&mut m.gl);
         m.out
     }
 
